@@ -259,12 +259,29 @@ RCP<const Set> Interval::set_complement(const RCP<const Set> &o) const
     if (is_a<Interval>(*o)) {
         set_set cont;
         const Interval &other = down_cast<const Interval &>(*o);
+        // `o` lies entirely to the left or to the right of this interval:
+        // nothing is removed from it
+        if ((neq(*start_, *other.end_)
+             and eq(*max({start_, other.end_}), *start_))
+            or (neq(*end_, *other.start_)
+                and eq(*min({end_, other.start_}), *end_))) {
+            return o;
+        }
         if (eq(*max({start_, other.start_}), *start_)) {
+            // the part of `o` left of this interval ends at start_, which
+            // belongs to it iff it is outside this interval and, when `o`
+            // ends there too, inside `o`
+            bool right_open = not left_open_;
+            if (eq(*start_, *other.end_))
+                right_open = right_open or other.right_open_;
             cont.insert(interval(other.get_start(), start_,
-                                 other.get_left_open(), not left_open_));
+                                 other.get_left_open(), right_open));
         }
         if (eq(*min({end_, other.end_}), *end_)) {
-            cont.insert(interval(end_, other.get_end(), not right_open_,
+            bool left_open = not right_open_;
+            if (eq(*end_, *other.start_))
+                left_open = left_open or other.left_open_;
+            cont.insert(interval(end_, other.get_end(), left_open,
                                  other.get_right_open()));
         }
         return SymEngine::set_union(cont);
